@@ -307,3 +307,47 @@ def lock6(cfg, kinds=('leaf', 'inode')):
     res.count('immediate-owner sites on existing OLC nodes', n)
     res.floor('immediate-owner sites on existing OLC nodes', 1)
     return res
+
+
+def lock6b(cfg):
+    """LOCK-6b: the reclaiming deleters of the OLC index defer, with the right pointer and size"""
+    from .rules.point import xsig, _inits
+    res = RuleResult('LOCK-6b', 'the reclaiming deleters of the OLC index (db_inode_qsbr_deleter, db_leaf_qsbr_deleter) hand exactly the pointer they were given to qsbr_per_thread::on_next_epoch_deallocate - with the size of that node (sizeof of the node class, resp. the size read from the leaf BEFORE it is handed over) - and free nothing themselves; the statistics decrement uses the same size')
+    n = 0
+    for f in cfg.functions:
+        if not f.blocks or f.short != 'operator()' or 'qsbr_deleter' not in f.cls:
+            continue
+        n += 1
+        res.functions.add(f.sig)
+        inits = _inits(f)
+        problems = []
+        dealloc = [(b, i, e) for b, i, e in f.elements() if e.get('k') == 'call' and e.get('name') == 'on_next_epoch_deallocate']
+        direct = [e for b, i, e in f.elements() if e.get('k') == 'call' and e.get('name') in ('free_aligned', 'deallocate', 'free', 'operator delete') and not forwarders.is_assert_elem(e)]
+        if direct:
+            problems.append('it frees the node itself (%s)' % direct[0].get('name'))
+        if len(dealloc) != 1:
+            problems.append('it does not hand the node to on_next_epoch_deallocate exactly once (%d calls)' % len(dealloc))
+        else:
+            args = [xsig(f, a, inits) for a in dealloc[0][2].get('args', [])]
+            if not args or args[0] != 'p0':
+                problems.append('the pointer handed to QSBR is %s, not the node being deleted' % (args[0] if args else 'missing'))
+            if '-stats-' in cfg.name and len(args) > 1:
+                want = None
+                if 'leaf' in f.cls:
+                    want = ('operator->(p0).get_size()', 'p0.get_size()')
+                    ok_size = args[1].replace('(*(p0))', 'p0') in want or args[1] in want
+                    # the size must have been read before the hand-over (a local initialised earlier)
+                    reads = [(b, i) for b, i, e in f.elements() if e.get('k') == 'call' and e.get('name') == 'get_size']
+                    if reads and not ((reads[0][0], reads[0][1]) < (dealloc[0][0], dealloc[0][1]) if reads[0][0] == dealloc[0][0] else True):
+                        problems.append('the leaf size is read after the leaf was handed to QSBR (it may already be freed)')
+                else:
+                    ok_size = args[1].startswith('sizeof(') and 'inode' in args[1]
+                if not ok_size:
+                    problems.append('the size handed to QSBR is %s' % args[1])
+        ok = not problems
+        res.ob(ok, {'rule': 'LOCK-6b', 'function': sh(f.cls)[:90], 'site': fileline(f.loc), 'verdict': 'defers the node it was given' if ok else 'VIOLATION'})
+        if not ok:
+            res.find(f, f.loc, '%s: %s - a removed node must stay allocated until every thread that may still read it has passed a quiescent state, and the memory accounted for it must be what is given back' % (sh(f.cls)[:70], '; '.join(problems)), key='LOCK-6b:%s' % ('leaf' if 'leaf' in f.cls else 'inode'), config=cfg.name)
+    res.count('reclaiming deleters', n)
+    res.floor('reclaiming deleters', 4)
+    return res
